@@ -876,6 +876,7 @@ impl Exec {
                 let l = last.as_ref().map(|l| self.idref(l));
                 let res: Vec<Frame> = self.store().read_sync(l.as_ref(), *limit, c).collect();
                 self.w.probe("read:sync");
+                self.w.log(format!("  -> {} frames #{:x}", res.len(), crate::rng::fnv1a(res.iter().map(|f| f.id.to_string()).collect::<Vec<_>>().join(",").as_bytes())));
                 if !res.is_empty() && limit.map(|x| res.len() == x).unwrap_or(false) {
                     self.w.probe("read:limit-cut");
                 }
@@ -1041,6 +1042,7 @@ impl Exec {
             }
         }
         self.w.probe("read:async");
+        self.w.log(format!("  -> {} frames #{:x}", got.len(), crate::rng::fnv1a(got.iter().map(|f| f.id.to_string()).collect::<Vec<_>>().join(",").as_bytes())));
         if cap < 100 && got.len() > cap {
             self.w.probe("read:async-backpressure");
         }
@@ -1342,13 +1344,13 @@ pub fn exec_value(plan: &serde_json::Value, tag: &str) -> crate::props::RunResul
     let plan: Plan = match serde_json::from_value(plan.clone()) {
         Ok(p) => p,
         Err(e) => {
-            return RunResult { violation: None, harness: Some(format!("bad plan: {}", e)), probes: BTreeMap::new(), decisions: 0, sim_ms: 0, trace: vec![] }
+            return RunResult { violation: None, harness: Some(format!("bad plan: {}", e)), probes: BTreeMap::new(), decisions: 0, sim_ms: 0, trace: vec![], choices: vec![] }
         }
     };
     let mut ex = match Exec::new(tag, plan.seed, plan.follower) {
         Ok(e) => e,
-        Err(Stop::Harness(h)) => return RunResult { violation: None, harness: Some(h), probes: BTreeMap::new(), decisions: 0, sim_ms: 0, trace: vec![] },
-        Err(Stop::Violation(v)) => return RunResult { violation: Some(v), harness: None, probes: BTreeMap::new(), decisions: 0, sim_ms: 0, trace: vec![] },
+        Err(Stop::Harness(h)) => return RunResult { violation: None, harness: Some(h), probes: BTreeMap::new(), decisions: 0, sim_ms: 0, trace: vec![], choices: vec![] },
+        Err(Stop::Violation(v)) => return RunResult { violation: Some(v), harness: None, probes: BTreeMap::new(), decisions: 0, sim_ms: 0, trace: vec![], choices: vec![] },
     };
     let res = std::panic::catch_unwind(std::panic::AssertUnwindSafe(|| ex.run_plan(&plan)));
     let (violation, harness) = match res {
@@ -1361,5 +1363,5 @@ pub fn exec_value(plan: &serde_json::Value, tag: &str) -> crate::props::RunResul
         ),
     };
     let (probes, decisions, sim_ms, trace) = ex.finish();
-    RunResult { violation, harness, probes, decisions, sim_ms, trace }
+    RunResult { violation, harness, probes, decisions, sim_ms, trace, choices: vec![] }
 }
